@@ -7,6 +7,7 @@ import (
 	"fmt"
 	"os"
 
+	"verif/harness/comp/listener"
 	"verif/harness/comp/ring"
 	"verif/harness/comp/sessin"
 	"verif/harness/internal/hx"
@@ -15,6 +16,7 @@ import (
 var components = map[string]func(o *hx.Out, g *hx.Rng, tier string){
 	"ring": ring.Run,
 	"sessin": sessin.Run,
+	"listener": listener.Run,
 }
 
 func main() {
